@@ -104,6 +104,31 @@ def actor_fn(world, kind, idx, results):
     return f
 
 
+import contextlib as _ctx
+
+
+@_ctx.contextmanager
+def _short_locks(timeout):
+    """Every lock handed out meanwhile gives up after `timeout` seconds (real time: used after the scheduled run)."""
+    from datashard.storage_backend import LocalStorageBackend as _L, S3StorageBackend as _S
+
+    origs = {c: c.create_lock for c in (_L, _S)}
+
+    def mk(orig):
+        def create_lock(self_, path, timeout_=30.0, **kw):
+            return orig(self_, path, timeout=timeout)
+
+        return create_lock
+
+    for c, o in origs.items():
+        c.create_lock = mk(o)
+    try:
+        yield
+    finally:
+        for c, o in origs.items():
+            c.create_lock = o
+
+
 def run_case(case):
     out = {"violations": [], "labels": [], "nontrivial": False}
     sc = case["sc"]
@@ -249,6 +274,24 @@ def run_case(case):
                     benign = ap[1] in ("ValueError", "TimeoutError", "ConcurrentModificationException")
                     if not benign:
                         out["violations"].append((f"append-raised/{ap[1]}", f"actor {i} ({kind}) append raised {ap[1]}: {ap[2]}"))
+        # everybody has returned and every handle is idle: the table must be usable - a fresh handle commits (a property change, which
+        # needs no schema) without waiting for a lock that nobody should hold any more
+        probe_err = None
+        with world.env(), _short_locks(0.5):
+            try:
+                import copy
+
+                hp = world.open()
+                mm = hp.metadata_manager
+                base_md = mm.refresh()
+                new_md = copy.deepcopy(base_md)
+                new_md.properties["verif.probe"] = "1"
+                mm.commit(base_md, new_md)
+            except Exception as e:  # noqa
+                probe_err = e
+        if probe_err is not None and not noexcl:
+            out["violations"].append((f"unusable-after-creation/{type(probe_err).__name__}", f"after all {len(sc['actors'])} actors returned, a fresh handle cannot commit: {type(probe_err).__name__}: {str(probe_err)[:120]} "
+                                      f"(idle handles still held by the harness: {sorted(i for i, r_ in results.items() if r_.get('handle') is not None)})"))
         if rows != want:
             out["violations"].append(("rows-not-exactly-once", f"final rows {sorted(rows.items())[:4]} != expected {sorted(want.items())[:4]}"))
         out["decisions"] = run.sched.decisions
